@@ -56,3 +56,28 @@ def values(vals, k):
     """k-th member of an endless sequence of distinct positive numbers built from a drawn finite list"""
     n = len(vals)
     return vals[k % n] * (1.0 + 0.173 * (k // n))
+
+
+def basis_cost(pg, states, jumps=None):
+    """(number of vector stars, estimated size of the largest expansion array) predicted from brute-force orbits: the library's
+    expansions are dense arrays [Nv, Nv, n] cleaned element by element in Python, n = number of Green-function stars or of
+    omega1 classes, so Nv^2 n is the cost that has to be bounded by construction"""
+    states = sorted(states)
+    if not states:
+        return 0, 0
+    P = pg.permutations(states)
+    orbs = pg.orbits_from_perms(P)
+    nv = sum(pg.invariant_dim(states[o[0]])[0] for o in orbs)
+    diffs = set()
+    byi = {}
+    for s in states:
+        byi.setdefault(s[0], []).append(s)
+    for lst in byi.values():
+        for s1 in lst:
+            for s2 in lst:
+                diffs.add(pg.endpoint_difference(s1, s2))
+    ngf = max(1, (2 * len(diffs)) // pg.nops)
+    n1 = 0
+    if jumps is not None:
+        n1 = max(1, len(pg.swing_jumps(states, jumps)) // pg.nops)
+    return nv, nv * nv * max(ngf, n1)
